@@ -10,7 +10,8 @@ after it against its LAST one; …). `Slots.routes` is the table of argument rou
 
 `holds Slots.routes r` says: the source contains a call `caller → callee` in which every parameter listed in `r` receives the listed source
 (or an expression the extractor cannot canonicalise, `"?"`, which is reported and contradicts nothing; a parameter that is not passed by name
-in a call that spreads a dictionary, `f(a, **d)`, may travel inside the dictionary and is not extractable either). A pair `caller → callee` that no longer
+in a call that spreads a dictionary, `f(a, **d)`, may travel inside the dictionary and is not extractable either; nor is a dictionary the
+model expects the caller to build when a private method of the object builds it, `self._settings(...)`, unless that method is a single `return` the extractor inlines). A pair `caller → callee` that no longer
 occurs at all is likewise "not extractable" (the function may have been inlined): the statement is about calls that exist.
 -/
 namespace Bycycle.Routing
@@ -19,7 +20,8 @@ abbrev Route := String × String × List (String × String)
 
 def argOk (gen : List (String × String)) (pe : String × String) : Bool :=
   match gen.lookup pe.1 with
-  | some g => g == pe.2 || g == "?"
+  | some g => g == pe.2 || g == "?" ||
+      (pe.2.startsWith "{" && g.startsWith "<self.")   -- a dictionary the model expects the caller to build, built by a private method of the object instead: not extractable
   | none => (gen.lookup "**").isSome        -- the call spreads a dictionary (`**d`): the parameter may travel inside it - not extractable
 
 def covers (exp gen : Route) : Bool :=
